@@ -468,6 +468,8 @@ def oracle_fresh(ctx):
     for (text, points, kind), (rc, out, err) in zip(jobs, res):
         ctx.case(("fresh", text)); ctx.count("fresh_interpreter_" + kind)
         here = answers_in_process(text, points)
+        if rc is None:
+            ctx.count("fresh_child_timeout"); continue      # the child process timed out: infrastructure, no verdict
         there = out.strip().splitlines() if rc == 0 else ["child failed rc=%s: %s" % (rc, err.strip().splitlines()[-1:] or "")]
         if here != there:
             i = next((j for j, (x, y) in enumerate(zip(here, there)) if x != y), min(len(here), len(there)))
